@@ -86,6 +86,8 @@ def event_name_is_a_c_string(ctx):
 
 
 def run(ctx):
+    from .C13 import compile_dropin_refuses_whole_unit
+    compile_dropin_refuses_whole_unit(ctx)
     event_name_is_a_c_string(ctx)
     from .C13 import tagged_dropins_all_erased
     tagged_dropins_all_erased(ctx)
